@@ -491,7 +491,12 @@ def x_ctor(p):
             if iv is not None:
                 kw["initial_volumes"] = iv
             if names is not None:
-                kw["column_names"] = names["list"] if names["kind"] == "list" else names["str"]
+                cnames = names["list"] if names["kind"] == "list" else names["str"]
+                if names["kind"] == "list" and names.get("present") == "tuple":
+                    cnames = tuple(cnames)
+                elif names["kind"] == "list" and names.get("present") == "ndarray":
+                    cnames = np.array(cnames, dtype=object)
+                kw["column_names"] = cnames
             obj = rt.Trough(p.get("name", "L"), _size_value(vrows), _size_value(cols), min_volume=_lim_value(p["minv"]),
                             max_volume=_lim_value(p["maxv"]), **kw)
         else:
@@ -502,6 +507,13 @@ def x_ctor(p):
                 kw["virtual_rows"] = _size_value(vrows)
             if names is not None:
                 kw["component_names"] = {wid(*w): n for w, n in names["wells"]}
+                if p.get("reuse_names"):
+                    # the caller uses one dict of names for several labware: an earlier constructor call must not leave traces in it
+                    try:
+                        rt.Labware("earlier", _size_value(rows), _size_value(cols), min_volume=_lim_value(p["minv"]),
+                                   max_volume=_lim_value(p["maxv"]), **kw)
+                    except Exception:  # noqa
+                        pass
             obj = rt.Labware(p.get("name", "L"), _size_value(rows), _size_value(cols), min_volume=_lim_value(p["minv"]),
                              max_volume=_lim_value(p["maxv"]), **kw)
     except Exception as e:  # noqa
